@@ -97,6 +97,9 @@ Qed.
 Lemma theta_le_initial : forall c ops s, cfg_ok c -> reach c ops s -> t_theta s <= theta0 c.
 Proof. intros c ops s Hc Hr. destruct (reach_inv c ops s Hc Hr) as [[HW _] _]. apply (w_theta _ _ _ HW). Qed.
 
+Lemma theta_pos : forall c ops s, cfg_ok c -> reach c ops s -> 0 < theta0 c -> 0 < t_theta s.
+Proof. intros c ops s Hc Hr. destruct (reach_inv c ops s Hc Hr) as [[HW _] _]. apply (w_pos _ _ _ HW). Qed.
+
 Lemma mono_from : forall c ops s off s', cfg_ok c -> Inv c s off ->
   Forall (fun o => o <> OReset) ops -> run_ops reorder s ops = Ok s' -> t_theta s' <= t_theta s.
 Proof.
